@@ -51,6 +51,11 @@ pub struct Ctl {
     pub log_enabled: AtomicBool,
     pub commit_plan: Mutex<CommitPlan>,
     pub captured: Mutex<Vec<Vec<DbRecord>>>,
+    /// every commit batch handed to storage (canonical order), when `record_commits` is on
+    pub commit_log: Mutex<Vec<(Vec<DbRecord>, bool)>>,
+    pub record_commits: AtomicBool,
+    /// reject the next n writes (set / batch_set) with a storage error, applying nothing
+    pub reject_writes: AtomicUsize,
     pub sched: Mutex<Option<Arc<Sched>>>,
     /// number of db reads / writes seen (for evidence only)
     pub reads: AtomicUsize,
@@ -69,6 +74,9 @@ impl Ctl {
             log_enabled: AtomicBool::new(false),
             commit_plan: Mutex::new(CommitPlan::Apply),
             captured: Mutex::new(vec![]),
+            commit_log: Mutex::new(vec![]),
+            record_commits: AtomicBool::new(false),
+            reject_writes: AtomicUsize::new(0),
             sched: Mutex::new(None),
             reads: AtomicUsize::new(0),
             writes: AtomicUsize::new(0),
@@ -156,6 +164,16 @@ impl GateDb {
         }
     }
 
+    /// response-delivery gate (only under a scheduler that asked for it)
+    async fn post(&self, kind: &'static str) {
+        let sched = self.ctl.sched.lock().unwrap().clone();
+        if let Some(s) = sched {
+            if s.post_gates.load(Ordering::SeqCst) {
+                let _ = s.park(OpDesc { kind, detail: "response".into(), is_write: false, is_commit: false }).await;
+            }
+        }
+    }
+
     /// canonical dump of the whole database: sorted (key, debug-rendering) pairs
     pub async fn dump(&self) -> Vec<(Vec<u8>, DbRecord)> {
         let mut all: Vec<(Vec<u8>, DbRecord)> = self
@@ -208,7 +226,13 @@ impl Database for GateDb {
     async fn set(&self, record: DbRecord) -> Result<(), StorageError> {
         self.gate(OpDesc { kind: "set", detail: short_key(&rec_key(&record)), is_write: true, is_commit: false })
             .await?;
-        self.inner.set(record).await
+        if self.ctl.reject_writes.load(Ordering::SeqCst) > 0 {
+            self.ctl.reject_writes.fetch_sub(1, Ordering::SeqCst);
+            return Err(StorageError::Connection("write rejected by the database".into()));
+        }
+        let r = self.inner.set(record).await;
+        self.post("set:done").await;
+        r
     }
 
     async fn batch_set(&self, records: Vec<DbRecord>, state: DbSetState) -> Result<(), StorageError> {
@@ -223,6 +247,13 @@ impl Database for GateDb {
             records.iter().map(|r| short_key(&rec_key(r))).collect::<Vec<_>>().join(",")
         );
         self.gate(OpDesc { kind: "batch_set", detail, is_write: true, is_commit }).await?;
+        if is_commit && self.ctl.record_commits.load(Ordering::SeqCst) {
+            self.ctl.commit_log.lock().unwrap().push((records.clone(), azks_last));
+        }
+        if self.ctl.reject_writes.load(Ordering::SeqCst) > 0 {
+            self.ctl.reject_writes.fetch_sub(1, Ordering::SeqCst);
+            return Err(StorageError::Connection("write rejected by the database".into()));
+        }
         if is_commit {
             let plan = self.ctl.commit_plan.lock().unwrap().clone();
             if let CommitPlan::CaptureAndFail = plan {
@@ -230,13 +261,17 @@ impl Database for GateDb {
                 return Err(StorageError::Connection("simulated crash during commit".into()));
             }
         }
-        self.inner.batch_set(records, state).await
+        let r = self.inner.batch_set(records, state).await;
+        self.post("batch_set:done").await;
+        r
     }
 
     async fn get<St: Storable>(&self, id: &St::StorageKey) -> Result<DbRecord, StorageError> {
         let k = St::get_full_binary_key_id(id);
         self.gate(OpDesc { kind: "get", detail: short_key(&k), is_write: false, is_commit: false }).await?;
-        self.inner.get::<St>(id).await
+        let r = self.inner.get::<St>(id).await;
+        self.post("get:done").await;
+        r
     }
 
     async fn batch_get<St: Storable>(&self, ids: &[St::StorageKey]) -> Result<Vec<DbRecord>, StorageError> {
@@ -256,7 +291,9 @@ impl Database for GateDb {
         };
         self.gate(OpDesc { kind: "batch_get", detail, is_write: false, is_commit: false }).await?;
         let sorted: Vec<St::StorageKey> = keyed.into_iter().map(|(_, i)| i).collect();
-        self.inner.batch_get::<St>(&sorted).await
+        let r = self.inner.batch_get::<St>(&sorted).await;
+        self.post("batch_get:done").await;
+        r
     }
 
     async fn get_user_data(&self, username: &AkdLabel) -> Result<KeyData, StorageError> {
@@ -267,7 +304,9 @@ impl Database for GateDb {
             is_commit: false,
         })
         .await?;
-        self.inner.get_user_data(username).await
+        let r = self.inner.get_user_data(username).await;
+        self.post("get_user_data:done").await;
+        r
     }
 
     async fn get_user_state(&self, username: &AkdLabel, flag: ValueStateRetrievalFlag) -> Result<ValueState, StorageError> {
@@ -278,7 +317,9 @@ impl Database for GateDb {
             is_commit: false,
         })
         .await?;
-        self.inner.get_user_state(username, flag).await
+        let r = self.inner.get_user_state(username, flag).await;
+        self.post("get_user_state:done").await;
+        r
     }
 
     async fn get_user_state_versions(
@@ -295,7 +336,9 @@ impl Database for GateDb {
             is_commit: false,
         })
         .await?;
-        self.inner.get_user_state_versions(usernames, flag).await
+        let r = self.inner.get_user_state_versions(usernames, flag).await;
+        self.post("get_user_state_versions:done").await;
+        r
     }
 }
 
@@ -382,6 +425,9 @@ pub struct SchedSt {
 pub struct Sched {
     pub st: Mutex<SchedSt>,
     pub gate_vrf: bool,
+    /// also park AFTER each database operation took effect (delivery of the response is a
+    /// separate scheduling point: models I/O completion order)
+    pub post_gates: AtomicBool,
 }
 
 fn never_faultable(_: &OpDesc) -> bool {
@@ -406,6 +452,7 @@ impl Sched {
                 faultable: never_faultable,
             }),
             gate_vrf,
+            post_gates: AtomicBool::new(false),
         })
     }
 
